@@ -49,6 +49,7 @@ type storeRec struct {
 
 // VC accumulates the verification condition of one top-level function.
 type VC struct {
+	noAssume func(name, kind string) bool // obligations that are not claimed: nothing is assumed from them afterwards
 	closedAllocs []*State // states just before own allocations (option heap-closedness)
 	noRebase  bool
 	nameWraps bool
